@@ -248,9 +248,11 @@ pub fn draw_top(rng: &mut Rng, tier: Tier, kind: usize) -> TOp {
 pub fn draw_seed(rng: &mut Rng) -> u64 {
     match rng.below(9) {
         8 => {
-            // boundary of the seed space: the first draw of worker `tid` is exactly 0.0
+            // boundary of the seed space: the first draw of worker `tid` is exactly 0.0, or the largest
+            // value next_f64() can take (1 - 2^-52), or exactly 0.5, or the smallest positive value
             let tid = rng.below(4) as u64;
-            vmodel::gen::seed_with_first_draw_zero(rng.next_u64()).wrapping_sub(tid)
+            let low52 = *rng.pick(&[0, 0, (1u64 << 52) - 1, (1u64 << 52) - 1, 1 << 51, 1]);
+            vmodel::gen::seed_with_first_draw(low52, rng.next_u64()).wrapping_sub(tid)
         }
         0 => 0,
         1 => 1,
